@@ -32,6 +32,17 @@ check("C17", "exploration",
       "model-based property testing (rapid): generated histories + algebraic laws on a projection",
       "DESIGN.md §4 C17")
 
+check("C12", "exploration",
+      "Generated values of every registered wire type (registry enumerated at run time), envelopes and primitive programs are round-tripped through the real writer/reader and compared with a semantic equality; the reader must consume exactly what the writer produced.",
+      "Sampling, not exhaustive; equality normalisations are listed in the evidence assumptions and DESIGN.md §3.8.",
+      "property-based testing (rapid): round-trip oracle over type-directed generators",
+      "DESIGN.md §4 C12")
+check("C13", "fault_enumeration",
+      "For each sampled valid encoding every truncation and every single-byte corruption from a hostile table is enumerated against every decoding entry point; encoders are fed values from a grammar of unsupported kinds and nil shapes. Oracle: error or value, never a panic / worker death / disproportionate allocation / modified destination.",
+      "Exhaustive per sampled encoding only (truncations, table-driven byte replacements); the encodings themselves and the unsupported values are sampled. Native go fuzzing is not used in the registered tiers (cannot be pinned to a seed).",
+      "fault enumeration over generated encodings + property-based testing (rapid) with crash/allocation oracles",
+      "DESIGN.md §4 C13")
+
 NOT_YET = {}
 
 def main():
